@@ -52,7 +52,7 @@ ASSUMPTIONS = [
     "raw binary (numpy.fromfile) needs a real file descriptor: an in-memory stream is not an access path for it",
     "raw binary carries no dtype/shape: it is read back with dtype= its stored dtype and compared flattened",
     "key= is exercised for npz and hdf5 (the containers that have entries); Kaldi tables/pipes are not exercised",
-    "a decoder returning an array from damaged bytes is legal; only raising, hanging (> 20 s) or crashing is judged",
+    "a decoder returning an array from damaged bytes is legal; only raising, hanging (a whole batch of <= 40 decodes taking > 90 s) or crashing is judged",
     "no address-space limit is imposed (RLIMIT_AS with torch loaded is unsafe); lying headers rely on the allocator "
     "refusing absurd sizes, which is what a deployment sees too",
     "sampling, not proof",
@@ -243,7 +243,8 @@ def _child(cases_bytes, wfd):
     out = os.fdopen(wfd, "w")
     devnull = os.open(os.devnull, os.O_WRONLY)
     os.dup2(devnull, 2)  # third-party decoders are noisy on stderr
-    signal.alarm(20)
+    signal.signal(signal.SIGALRM, signal.SIG_DFL)  # a hang kills this child; the parent reports WDS_HANG
+    signal.alarm(90)
     for i, (name, data) in enumerate(cases_bytes):
         out.write(json.dumps(["start", i]) + "\n")
         out.flush()
